@@ -189,11 +189,12 @@ type c18Seg struct {
 }
 
 type c18Para struct {
-	token string
-	segs  []c18Seg
-	loc   string
-	split bool   // some placeholder is cut by a run boundary
-	extra string // "" | "break" | "drawing"
+	token     string
+	segs      []c18Seg
+	loc       string
+	split     bool   // some placeholder is cut by a run boundary
+	extra     string // "" | "break" | "drawing"
+	emptyRuns int    // runs without text between the pieces
 }
 
 func (p *c18Para) fullText() string {
@@ -321,6 +322,12 @@ func c18Build(c *core.Ctx, r *rng.R) (*document.Document, *c18Model) {
 			if i == 0 {
 				first(text[prev:cpos], f)
 			} else {
+				if r.Chance(1, 5) {
+					// a run without any text at the boundary (formatting only: what an editor leaves behind, or a w:tab / w:sym run
+					// after opening): a zero-length piece of the segmentation, possibly inside a placeholder
+					more("", c18Formats[(fi+i+3)%len(c18Formats)])
+					p.emptyRuns++
+				}
 				more(text[prev:cpos], f)
 			}
 			prev = cpos
@@ -575,6 +582,12 @@ func c18Case(c *core.Ctx) *core.Result {
 			continue // the base itself does not show the paragraph (reader loss on the opened variant): nothing to compare against
 		}
 		res.Count("paragraphs_compared", 1)
+		if p.emptyRuns > 0 {
+			res.Count("paragraphs_with_textless_runs_between_pieces", 1)
+			if p.split {
+				res.Count("paragraphs_with_textless_runs_and_split_placeholder", 1)
+			}
+		}
 		if op == nil {
 			res.Add(cls+"/paragraph-lost", fmt.Sprintf("paragraph %s of the base document is not in the rendered document", p.token), note, "base text: "+bp.text())
 			continue
@@ -811,7 +824,7 @@ func init() {
 	core.Register(&core.Check{
 		ID:    "C18",
 		Level: "exploration",
-		Rule: "base documents built through the API: body paragraphs, table cells and nested-table cells whose text (unique token + literals incl. single braces and CJK + 0-3 placeholders) is cut into 1-4 runs of differing formatting, two thirds of the multi-run paragraphs with a run boundary forced inside a placeholder; paragraph properties, page-break runs, a loop table (header row, {{#each}} row, 0-2 fixed rows, 0-3 items), an image placeholder, header and footer with one or two placeholders each (every second case with a header: the package is rewritten so that header and/or footer placeholders are split over two runs at a random offset, also between the two opening braces, then opened), page settings; data for about two thirds of the names incl. XML metacharacters, empty and directive-like values. " +
+		Rule: "base documents built through the API: body paragraphs, table cells and nested-table cells whose text (unique token + literals incl. single braces and CJK + 0-3 placeholders) is cut into 1-4 runs of differing formatting, two thirds of the multi-run paragraphs with a run boundary forced inside a placeholder, one boundary in five holding an additional run without text (formatting only; a zero-length piece, also inside a placeholder); paragraph properties, page-break runs, a loop table (header row, {{#each}} row, 0-2 fixed rows, 0-3 items), an image placeholder, header and footer with one or two placeholders each (every second case with a header: the package is rewritten so that header and/or footer placeholders are split over two runs at a random offset, also between the two opening braces, then opened), page settings; data for about two thirds of the names incl. XML metacharacters, empty and directive-like values. " +
 			"Oracle on the saved rendered document, read independently and compared with the saved base document: per paragraph the text after reference substitution, the run formatting of every literal character (value characters are free), w:pPr, w:br count; body child sequence, w:sectPr, loop table rows, header/footer text, picture for the image placeholder, untouched parts byte/canonically equal. Non-trivial: >=2 paragraphs compared; distinct = paragraph texts + data.",
 		Cases:         func(t string) int { return tierN(t, 3000, 120000) },
 		Run:           c18Case,
